@@ -46,6 +46,8 @@ BASE_QUERIES = [
     'Pr[<=10](<> d0 < 0.1234567891)', 'Pr[<=10](<> d0 == 1.0)', 'Pr[<=10; 7](<> b0)', 'Pr[<=10](b0 U b1)', 'Pr[<=10]([] b0) >= 1.0', 'E[x0<=10; 100](max: v0)', 'A[] x0 <= 5 imply v0 == 0',
 ]
 
+QUERIES = list(BASE_QUERIES)          # imported by C19
+
 
 def double_queries(rng, n):
     """queries around floating-point constants: the property asks for every bit of them to survive print / re-parse.  Literals whose
